@@ -127,6 +127,17 @@ func (r *runner) do(o opSpec) {
 			n.Errs = append(n.Errs, err)
 			r.mu.Unlock()
 		}
+	case "tampered":
+		// a well-formed message with one altered byte near the end (fails a later verification)
+		m := r.tr.msgs[o.Msg]
+		bz := append([]byte{}, m.Bytes...)
+		bz[len(bz)-2] ^= 0x10
+		_, err := n.Party.UpdateFromBytes(bz, r.nw.Nodes[m.Sender].ID, m.Broadcast)
+		if err != nil {
+			r.mu.Lock()
+			n.Errs = append(n.Errs, err)
+			r.mu.Unlock()
+		}
 	case "garbage":
 		m := r.tr.msgs[o.Msg]
 		_, _ = n.Party.UpdateFromBytes([]byte{0xff, 0x01, 0x02}, r.nw.Nodes[m.Sender].ID, true)
@@ -169,13 +180,13 @@ func (r *runner) finish(delivered map[int]bool) outcome {
 func deliveredSet(sc scenario) map[int]bool {
 	d := map[int]bool{}
 	for _, o := range sc.Prefix {
-		if o.Kind == "update" {
+		if o.Kind == "update" || o.Kind == "tampered" {
 			d[o.Msg] = true
 		}
 	}
 	for _, t := range sc.Threads {
 		for _, o := range t {
-			if o.Kind == "update" {
+			if o.Kind == "update" || o.Kind == "tampered" {
 				d[o.Msg] = true
 			}
 		}
@@ -365,6 +376,13 @@ func scenarios(tier string, seed int64) []scenario {
 			scenario{Name: name + "/garbage-vs-round-completion", Cfg: cfg, Node: node, Prefix: prefixAllBut1, Threads: [][]opSpec{{{Kind: "garbage", Msg: 0}}, {upd(r1 - 1)}}},
 			scenario{Name: name + "/duplicate-vs-new-vs-WaitingFor", Cfg: cfg, Node: node, Prefix: prefixAllBut1, Threads: [][]opSpec{{upd(0), {Kind: "waiting"}}, {upd(r1 - 1)}}},
 		)
+	}
+	// a round that fails to start (tampered last message of round 2) racing with the next round's message
+	{
+		cfg := scen.EdSigning("small", 3, 1, []int{0, 1, 2}, msg, 0, seed).Cfg
+		out = append(out, scenario{Name: "eddsa-signing(3 signers)/failing-round-start-vs-next-message-vs-WaitingFor", Cfg: cfg, Node: 0, NoCompletion: true,
+			Prefix:  []opSpec{{Kind: "start"}, {"update", 0}, {"update", 1}, {"update", 2}},
+			Threads: [][]opSpec{{{"tampered", 3}}, {{"update", 4}}, {{Kind: "waiting"}}}})
 	}
 	gen("eddsa-keygen(n=3)", scen.EdKeygen("small", 3, 1, seed).Cfg, 0, 2)
 	gen("eddsa-signing(3 signers)", scen.EdSigning("small", 3, 1, []int{0, 1, 2}, msg, 0, seed).Cfg, 0, 2)
